@@ -67,6 +67,38 @@ def make_case(rng: random.Random, hostile_rows: bool = False) -> Dict[str, Any]:
     }
 
 
+def corpus_case(rng: random.Random, index: int) -> Optional[Dict[str, Any]]:
+    """One of the repository's own example inputs (read by rpv.corpus, unique ids added, written back through the ordinary
+    writer), run with -n because most of them overdraw an account."""
+    from rpv import corpus
+    from rpv.gen import METHODS
+
+    entries = corpus.corpus()
+    if not entries:
+        return None
+    entry = entries[index % len(entries)]
+    hists = copy.deepcopy(entry["hists"])
+    country = rng.choice(("us", "us", "generic", "ie", "jp"))
+    language = rng.choice(COUNTRY_LANGUAGES[country])
+    ini_methods: Dict[int, str] = {}
+    if entry["methods"] and country in ("us", "generic"):
+        ini_methods = dict(entry["methods"])
+        ini_methods.setdefault(1970, ini_methods[min(ini_methods)])
+        sched, args = dict(ini_methods), []
+    else:
+        method = rng.choice(METHODS) if country in ("us", "generic") else "fifo"
+        sched, args = {1970: method}, ["-m", method]
+    from_s = to_s = None
+    days = sorted({parse_ts(r["ts"]).date() for h in hists.values() for r in h["rows"]})
+    clean = [d for d in days if all(clean_cut(h, d) for h in hists.values())]
+    pick = rng.random()
+    if pick < 0.3:
+        from_s = rng.choice(days).isoformat()
+    elif pick < 0.5 and clean and country != "jp":
+        to_s = rng.choice(clean).isoformat()
+    return {"corpus": entry["name"], "hists": hists, "country": country, "language": language, "args": args + ["-g", language, "-n"], "ini_methods": {str(k): v for k, v in ini_methods.items()}, "schedule": {str(k): v for k, v in sched.items()}, "from": from_s, "to": to_s}
+
+
 def run_case(ctx: Any, expected: Expected, case: Dict[str, Any], name: str, what: str) -> Optional[Tuple[Stats, List[Dict[str, Any]]]]:
     """what: 'content' (C13) or 'links' (C19). Returns None when the run was not observable."""
     ws = Workspace(ctx.scratch, name)
@@ -99,8 +131,9 @@ def run_case(ctx: Any, expected: Expected, case: Dict[str, Any], name: str, what
         else:
             sched = {int(k): v for k, v in case["schedule"].items()}
             schedule_arg = None if ini_methods else sched
-            computed = expected.compute(ws.ini, ws.ods, case["country"], schedule_arg, from_d, to_d)
-            computed_to = expected.compute(ws.ini, ws.ods, case["country"], schedule_arg, None, to_d) if from_d else computed
+            negative = "-n" in case["args"]
+            computed = expected.compute(ws.ini, ws.ods, case["country"], schedule_arg, from_d, to_d, allow_negative=negative)
+            computed_to = expected.compute(ws.ini, ws.ods, case["country"], schedule_arg, None, to_d, allow_negative=negative) if from_d else computed
             violations = check_full_report(report, hists, computed, computed_to, sched, from_d, to_d, stats)
         for p in report.problems:
             violations.append({"rule": "fullreport.structure", "detail": {"problem": p}})
